@@ -704,6 +704,10 @@ def check(prog, rep):
     from .c12 import stateless
 
     stateless(prog, rep)
+    # nothing on the way is memoised on a key that does not determine the answer
+    from ..rules_own import memo_rule
+
+    memo_rule(prog, rep, rule="MEMO")
 
 
 def arity_rule(prog, rep):
